@@ -18,10 +18,12 @@ import GceTcb.Drive.C09
 import GceTcb.Drive.C10
 import GceTcb.Drive.C11
 import GceTcb.Drive.C12
+import GceTcb.Drive.C12Cli
 import GceTcb.Drive.C13
 import GceTcb.Drive.C14
 import GceTcb.Drive.C15
 import GceTcb.Drive.EndorseCli
+import GceTcb.Drive.RpCli
 import GceTcb.Drive.C16
 import GceTcb.Drive.C16Fs
 import GceTcb.Drive.C17
@@ -60,10 +62,12 @@ def dispatch (line : String) : String :=
     | "c10" => Drive.C10.handle f
     | "c11" => Drive.C11.handle f
     | "c12" => Drive.C12.handle f
+    | "c12cli" => Drive.C12Cli.handle f
     | "c13" => Drive.C13.handle f
     | "c14" => Drive.C14.handle f
     | "c15" => Drive.C15.handle f
     | "cli" => Drive.EndorseCli.handle f
+    | "rpcli" => Drive.RpCli.handle f
     | "c16" => Drive.C16.handle f
     | "c16fs" => Drive.C16Fs.handle f
     | "c17" => Drive.C17.handle f
